@@ -189,12 +189,12 @@ type Replay struct {
 	// Generate: the tape is not recorded; re-generate it from Seed with the
 	// Pin streams drawing zeros (written before a case starts, so that a
 	// process crash in the middle of the case still leaves a replay file).
-	Generate    bool                `json:"generate,omitempty"`
-	Pin         []string            `json:"pin,omitempty"`
-	Minimised   bool                `json:"minimised"`
-	ShrinkRuns  int                 `json:"shrink_runs"`
-	OrigDraws   int                 `json:"orig_draws"`
-	Draws       int                 `json:"draws"`
+	Generate   bool     `json:"generate,omitempty"`
+	Pin        []string `json:"pin,omitempty"`
+	Minimised  bool     `json:"minimised"`
+	ShrinkRuns int      `json:"shrink_runs"`
+	OrigDraws  int      `json:"orig_draws"`
+	Draws      int      `json:"draws"`
 }
 
 func (r *Replay) Write(path string) error {
